@@ -40,6 +40,15 @@ class Color(Enum):
     BLUE = "b"
 
 
+class Color2(Enum):
+    """A newer client's view of Color: one more member (version skew)."""
+
+    RED = "r"
+    GREEN = "g"
+    BLUE = "b"
+    TURBO = "t"
+
+
 @dataclass(frozen=True)
 class Pt(ArrowSerializableDataclass):
     x: int
